@@ -1175,6 +1175,89 @@ fn run_idle(c: IdleCase) -> IdleRun {
     IdleRun { obs: ex.out, machinery }
 }
 
+// ------------------------------------------------------------------------------------------------
+// idle time-out while the engine is held up in a write.  The peer keeps sending empty frames well inside
+// the library's idle time-out L, but for 2.4 x L it takes no bytes, so that the library's engine sits in
+// the write of a begin frame and does not look at its input.  When the peer reads again the frames that
+// arrived in time are all there: the connection must not be declared idle.
+pub async fn idle_backpressure_scenario(l: u32) -> (Vec<(String, String)>, Vec<String>, Option<String>) {
+    let mut fails = vec![];
+    let (pipe, a, _b) = Pipe::new();
+    let mut auto = Auto::default();
+    auto.max_frame_size = 4096;
+    let mut peer = Peer::new(pipe.clone(), 1, auto);
+    let h = Duration::from_secs(30);
+    let mut conn = match drive(&mut peer, Connection::builder().container_id("lib").max_frame_size(4096).idle_time_out(l).open_with_stream(a), h).await {
+        Some(Ok(c)) => c,
+        other => return (fails, trace_to_strings(&peer.trace), Some(format!("idle/back-pressure: open failed: {:?}", other.map(|r| r.map(|_| ()).map_err(|e| e.to_string()))))),
+    };
+    settle(&mut peer, 2).await;
+    pipe.stall_writes(0, true);
+    let task = tokio::spawn(async move {
+        let r = Session::begin(&mut conn).await.map(|_s| ()).map_err(|e| format!("{e:?}"));
+        (conn, r)
+    });
+    // the peer's heartbeats: every 0.4 L for 2.4 L
+    let step = Duration::from_millis((l as u64 * 2 / 5).max(1));
+    for _ in 0..6 {
+        tokio::time::sleep(step).await;
+        peer.send_empty();
+    }
+    pipe.stall_writes(0, false);
+    // the peer reads again and keeps the connection alive while the begin is answered
+    for _ in 0..3 {
+        settle(&mut peer, 2).await;
+        peer.send_empty();
+    }
+    let what = format!("local idle time-out {l} ms; the peer sent an empty frame every {} ms throughout but took no bytes for {} ms while a begin was being written", step.as_millis(), step.as_millis() * 6);
+    if !task.is_finished() {
+        fails.push(("idle/back-pressure: begin hangs".to_string(), format!("{what}: Session::begin still pending after the peer resumed reading")));
+        task.abort();
+        return (fails, trace_to_strings(&peer.trace), None);
+    }
+    let (mut conn, r) = task.await.expect("begin task");
+    if let Err(e) = &r {
+        fails.push((
+            if is_idle_error(e) { "idle-timeout-although-frames-arrived (engine held up in a write)".to_string() } else { "idle/back-pressure: begin failed".to_string() },
+            format!("{what}: Session::begin -> {e}"),
+        ));
+    }
+    match drive(&mut peer, conn.close(), h).await {
+        Some(Ok(())) => {}
+        other => {
+            let e = format!("{:?}", other.map(|r| r.map_err(|e| e.to_string())));
+            if r.is_ok() {
+                fails.push((
+                    if is_idle_error(&e) { "idle-timeout-although-frames-arrived (engine held up in a write)".to_string() } else { "idle/back-pressure: close failed".to_string() },
+                    format!("{what}: close() -> {e}"),
+                ));
+            }
+        }
+    }
+    (fails, trace_to_strings(&peer.trace), None)
+}
+
+fn run_idle_backpressure(out: &mut Outcome) -> u64 {
+    let mut n = 0;
+    for l in [100u32, 1000, 60_000] {
+        let scen: Scenario<(Vec<(String, String)>, Vec<String>, Option<String>)> = Arc::new(move || Box::pin(idle_backpressure_scenario(l)));
+        let ex = run_exec(vec![], &RunCfg::none(), &scen);
+        n += 1;
+        match ex.out {
+            Some((fails, trace, mach)) => {
+                if let Some(m) = mach {
+                    out.machinery_errors.push(m);
+                }
+                for (s, d) in fails {
+                    out.violation(s, d, json!({"part": "idle-backpressure", "l": l, "trace": trace}));
+                }
+            }
+            None => out.machinery_errors.push(format!("idle/back-pressure scenario l={l} died: {:?}", ex.panics)),
+        }
+    }
+    n
+}
+
 fn idle_cases(quick: bool) -> Vec<IdleCase> {
     let vals: Vec<Option<u32>> = if quick {
         vec![None, Some(0), Some(100), Some(60_000)]
@@ -1228,6 +1311,8 @@ pub fn run(ctx: &Ctx) -> Outcome {
     let cnt_l = ChCounters::default();
 
     // ---- Part 2 first (cheap, fixed size)
+    let n_bp = run_idle_backpressure(&mut out);
+    out.set("idle_backpressure_cases", n_bp);
     let cases = idle_cases(quick);
     let t_idle = Instant::now();
     let runs = par_map(&cases, ctx.threads, |_, c| if Instant::now() > deadline { None } else { Some(run_idle(*c)) });
